@@ -300,9 +300,9 @@ func gen(thorough bool) {
 	}
 	// (8) random mixes: opcode subsets, register sizes, modes, threading, several processors,
 	//     shared objects attached to a random subset
-	nmix := 40
+	nmix := 60
 	if thorough {
-		nmix = 600
+		nmix = 1500
 	}
 	allNames := []string{}
 	for _, o := range append(append([]string{}, static...), dynamicOps...) {
